@@ -109,7 +109,7 @@ def run_mc(name, module, cfg, workers=None, timeout=1500, xmx="10g", simulate=No
     if coverage and not simulate and (required_actions or os.environ.get("VERIF_COVERAGE")):
         cmd += ["-coverage", "1"]
     if simulate:
-        cmd += ["-simulate", simulate, "-seed", str(seed())]
+        cmd += ["-simulate"] + simulate.split() + ["-seed", str(seed())]
     cmd += ["-config", os.path.join(SPEC, cfg), os.path.join(SPEC, module)]
     t0 = time.time()
     try:
@@ -123,10 +123,14 @@ def run_mc(name, module, cfg, workers=None, timeout=1500, xmx="10g", simulate=No
         m = _RE_STATES.match(line)
         if m:
             res["generated"], res["distinct"] = int(m.group(1)), int(m.group(2))
+        m = re.match(r"^The number of states generated: (\d+)", line)
+        if m and simulate:
+            res["generated"] = int(m.group(1))
+            res["distinct"] = int(m.group(1))      # simulation mode: states visited along random behaviours
         m = _RE_COV.match(line)
         if m:
             res["actions"][m.group(1)] = max(res["actions"].get(m.group(1), 0), int(m.group(4)))
-    ok = ("Model checking completed. No error has been found." in out) or (simulate and p.returncode == 0 and "Error" not in out)
+    ok = ("Model checking completed. No error has been found." in out) or (simulate and p.returncode == 0 and "Error" not in out and "violated" not in out)
     shutil.rmtree(md, ignore_errors=True)
     if not ok:
         log(out[-5000:])
